@@ -1871,6 +1871,11 @@ emit_single_member_OER_constraint_comment(arg_t *arg, asn1cnst_range_t *range, c
 	}
 }
 
+#ifdef VLM_ASN1C_VERIF
+/* Ghost outputs for verification harnesses: the layout numbers computed below, before they are printed. */
+long vlm_asn1c_verif_oer_width = -1, vlm_asn1c_verif_oer_positive = -1;
+long vlm_asn1c_verif_per_rbits = -2, vlm_asn1c_verif_per_ebits = -2;
+#endif
 static int
 emit_single_member_OER_constraint_value(arg_t *arg, asn1cnst_range_t *range) {
     if(!range) {
@@ -1926,6 +1931,10 @@ emit_single_member_OER_constraint_value(arg_t *arg, asn1cnst_range_t *range) {
                 width = 8;
             }
         }
+#ifdef VLM_ASN1C_VERIF
+        vlm_asn1c_verif_oer_width = width;
+        vlm_asn1c_verif_oer_positive = positive;
+#endif
         OUT("{ %u, %u }", width, positive);
     } else {
         OUT("{ 0, 0 }");
@@ -2023,6 +2032,10 @@ emit_single_member_PER_constraint(arg_t *arg, asn1cnst_range_t *range, int alpha
 			}
 			}
 
+#ifdef VLM_ASN1C_VERIF
+			vlm_asn1c_verif_per_rbits = (long)rbits;
+			vlm_asn1c_verif_per_ebits = (long)ebits;
+#endif
 			OUT("{ APC_CONSTRAINED%s,%s% d, % d, ",
 				range->extensible
 					? " | APC_EXTENSIBLE" : "",
